@@ -536,7 +536,8 @@ def check_C16(ctx):
     scen = vt.tlc_generate(ctx, 'GenDoc', 'C16', 0, extra_env={})
     # the relations must also hold after redaction (Normalize -> RemovePrivateHops): the boundary-address documents of C17
     scen += vt.tlc_generate(ctx, 'GenDoc', 'C17', 0)
-    wire_family(ctx, 'C16', scen, DOC_RULE % 'C16All (0..2 runs, hop lists over empty/v4/v6/mapped addresses, RTT sample lists of length 0..4 over {0,1,2,7} incl. every permutation)',
+    scen += vt.tlc_generate(ctx, 'GenDoc', 'C16stress', 0)       # identifiers of documents finished concurrently
+    wire_family(ctx, 'C16', scen, DOC_RULE % 'C16Stress (documents finished by 2 / 8 goroutines at once: identifiers pairwise distinct), C16All (0..2 runs, hop lists over empty/v4/v6/mapped addresses, RTT sample lists of length 0..4 over {0,1,2,7} incl. every permutation)',
                 nontrivial=lambda s, es: True)
     vt.write_evidence(ctx, 'model_checking', ctx_rule(ctx), exhaustive=True)
 
